@@ -349,7 +349,12 @@ def search(ctx, out):
     new = {n: v for n, v in failing.items() if n not in KNOWN_RACY}
     if not new:
         return False
-    for name, (l, bad) in sorted(new.items()):
+    items = sorted(new.items())
+    if len(items) > 8:
+        rest = [n for n, _ in items[8:]]
+        items = items[:8]
+        ctx.notes.append('further locations rejected by the per-pair predicate: ' + ', '.join(rest))
+    for name, (l, bad) in items:
         txt = f'proof obligation RoProps.C13.table_ok no longer holds: location {name} ({l["File"]}) has conflicting accesses that can run concurrently and are neither both atomic nor under a common lock\n'
         for a, b in bad[:12]:
             txt += f'  {l["File"]}:{fmt_row(a)}\n     vs :{fmt_row(b)}\n'
